@@ -28,10 +28,20 @@ pub fn write(
     let thread_context = match config.crashing_thread_context {
         CrashingThreadContext::CrashContextPlusAddress((ctx, _))
         | CrashingThreadContext::CrashContext(ctx) => ctx,
-        CrashingThreadContext::None => MDLocationDescriptor {
-            data_size: 0,
-            rva: 0,
-        },
+        CrashingThreadContext::None => {
+            if let Some(context) = &config.crash_context {
+                // The blamed thread is not in the thread list (e.g. it could not be attached
+                // to), but the registers at the time of the crash are known nonetheless.
+                let mut cpu = crate::minidump_cpu::RawContextCPU::default();
+                context.fill_cpu_context(&mut cpu);
+                MemoryWriter::alloc_with_val(buffer, cpu)?.location()
+            } else {
+                MDLocationDescriptor {
+                    data_size: 0,
+                    rva: 0,
+                }
+            }
+        }
     };
 
     let stream = MDRawExceptionStream {
